@@ -9,8 +9,9 @@
    * FROST keygen.Config restore (plain cbor.Unmarshal, no validation).
    Executable, total definitions only.  Byte strings are lists of N; all functions below are meant for
    well-formed bytes (every element < 256), which is what the harness passes. *)
-From Coq Require Import List NArith ZArith Bool.
-From Coq Require String Ascii.
+From Coq Require Import String Ascii.
+From Coq Require Import List NArith ZArith Bool Znumtheory.
+
 From MPS Require Import Model.Bytes Model.Secp256k1.
 Import ListNotations.
 Open Scope N_scope.
@@ -80,12 +81,12 @@ Fixpoint utf8_valid (l : bytes) : bool :=
       else false
   end.
 
-(* well-formed = inside the emitted subset: arguments and lengths below 2^64, text is valid UTF-8 *)
+(* well-formed = inside the emitted subset: arguments and lengths below 2^64 *)
 Fixpoint wf_cbor (v : cbor) : bool :=
   match v with
   | CUint n | CNeg n => n <? two64
   | CBytes b => lenN b <? two64
-  | CText b => (lenN b <? two64) && utf8_valid b
+  | CText b => lenN b <? two64
   | CArr l => (lenN l <? two64) && forallb wf_cbor l
   | CMap l => (lenN l <? two64) && forallb (fun kv => wf_cbor (fst kv) && wf_cbor (snd kv)) l
   | CBool _ | CNull => true
@@ -175,9 +176,7 @@ Fixpoint decode_fuel (fuel : nat) (bs : bytes) : option (cbor * bytes) :=
           else if major =? 2 then
             match take a r with Some (b, r') => Some (CBytes b, r') | None => None end
           else if major =? 3 then
-            match take a r with
-            | Some (b, r') => if utf8_valid b then Some (CText b, r') else None
-            | None => None end
+            match take a r with Some (b, r') => Some (CText b, r') | None => None end
           else if major =? 4 then
             if a <=? lenN r then
               match decode_seq (decode_fuel f) (N.to_nat a) r with
@@ -199,6 +198,34 @@ Fixpoint decode_fuel (fuel : nat) (bs : bytes) : option (cbor * bytes) :=
 
 Definition decode (bs : bytes) : option (cbor * bytes) := decode_fuel (length bs) bs.
 
+(* fxamacker validates UTF-8 when a text string is decoded into a Go string or an interface{} -- not while it
+   skips over a value (cbor.RawMessage).  [decode] is the structural pass; decoding into interface{} is
+   [decode_any]; struct fields of type string check in [fld_text] below. *)
+Fixpoint text_valid (v : cbor) : bool :=
+  match v with
+  | CText b => utf8_valid b
+  | CArr l => forallb text_valid l
+  | CMap l => forallb (fun kv => text_valid (fst kv) && text_valid (snd kv)) l
+  | _ => true
+  end.
+Definition decode_any (bs : bytes) : option (cbor * bytes) :=
+  match decode bs with
+  | Some (v, r) => if text_valid v then Some (v, r) else None
+  | None => None
+  end.
+
+(* results of Go calls that may fail or panic *)
+Inductive outcome (A : Type) :=
+| Ok (a : A)
+| Err (code : N)
+| Panic.
+Arguments Ok {A} a.
+Arguments Err {A} code.
+Arguments Panic {A}.
+
+Definition is_panic {A} (o : outcome A) : bool := match o with Panic => true | _ => false end.
+Definition out_opt {A} (o : outcome A) : option A := match o with Ok a => Some a | _ => None end.
+
 (* ------------------------------------------------------------------------------------------------ *)
 (* 2. protocol.Message                                                                               *)
 
@@ -218,14 +245,14 @@ Definition empty_message : message := mkMessage None [] [] [] 0 None false None.
 Definition opt_bytes (o : option bytes) : cbor :=
   match o with None => CNull | Some b => CBytes b end.
 
-Definition k_ssid := tstr "SSID".
-Definition k_from := tstr "From".
-Definition k_to := tstr "To".
-Definition k_protocol := tstr "Protocol".
-Definition k_round := tstr "RoundNumber".
-Definition k_data := tstr "Data".
-Definition k_bcast := tstr "Broadcast".
-Definition k_bv := tstr "BroadcastVerification".
+Definition k_ssid := tstr "SSID"%string.
+Definition k_from := tstr "From"%string.
+Definition k_to := tstr "To"%string.
+Definition k_protocol := tstr "Protocol"%string.
+Definition k_round := tstr "RoundNumber"%string.
+Definition k_data := tstr "Data"%string.
+Definition k_bcast := tstr "Broadcast"%string.
+Definition k_bv := tstr "BroadcastVerification"%string.
 
 (* cbor.Marshal of marshallableMessage: a map of 8 text keys in struct-field order *)
 Definition message_tree (m : message) : cbor :=
@@ -240,18 +267,26 @@ Definition message_tree (m : message) : cbor :=
 
 Definition message_encode (m : message) : bytes := encode (message_tree m).
 
+(* what Go values can be: slice and string lengths below 2^64, RoundNumber a uint16; and what survives the
+   decoder: From / To / Protocol valid UTF-8 (Go strings need not be) *)
+Definition wf_opt (o : option bytes) : bool := match o with None => true | Some b => lenN b <? two64 end.
+Definition wf_text (b : bytes) : bool := (lenN b <? two64) && utf8_valid b.
+Definition wf_message (m : message) : bool :=
+  wf_opt (m_ssid m) && wf_text (m_from m) && wf_text (m_to m) && wf_text (m_protocol m)
+  && (m_round m <? 65536) && wf_opt (m_data m) && wf_opt (m_bv m).
+
 (* field decoders of cbor.Unmarshal into a struct field that currently holds [old]:
    null sets a slice to nil and leaves strings, integers and booleans untouched *)
 Definition fld_bytes (v : cbor) : option (option bytes) :=
   match v with CBytes b => Some (Some b) | CNull => Some None | _ => None end.
 Definition fld_text (old : bytes) (v : cbor) : option bytes :=
-  match v with CText b => Some b | CNull => Some old | _ => None end.
+  match v with CText b => if utf8_valid b then Some b else None | CNull => Some old | _ => None end.
 Definition fld_uint16 (old : N) (v : cbor) : option N :=
   match v with CUint n => if n <? 65536 then Some n else None | CNull => Some old | _ => None end.
 Definition fld_bool (old : bool) (v : cbor) : option bool :=
   match v with CBool b => Some b | CNull => Some old | _ => None end.
 
-Notation "'do' x <- e ; k" := (match e with Some x => k | None => None end)
+Local Notation "'do' x <- e ; k" := (match e with Some x => k | None => None end)
   (at level 200, x pattern, e at level 100, k at level 200, right associativity).
 
 (* the emitted shape (8 keys, this order), each value of the field's type or null; m0 = the receiver's
@@ -328,8 +363,8 @@ Definition point_decode (b : bytes) : option point :=
 (* ------------------------------------------------------------------------------------------------ *)
 (* 4. polynomial.Exponent                                                                            *)
 
-Definition k_isconstant := tstr "IsConstant".
-Definition k_coefficients := tstr "Coefficients".
+Definition k_isconstant := tstr "IsConstant"%string.
+Definition k_coefficients := tstr "Coefficients"%string.
 
 (* coefficients = None is a nil slice *)
 Definition exponent_tree (is_const : bool) (coeffs : option (list point)) : cbor :=
@@ -347,13 +382,6 @@ Definition coeff_count (coeffs : option (list point)) : N :=
 Definition exponent_encode (is_const : bool) (coeffs : option (list point)) : bytes :=
   be_bytes 4 (coeff_count coeffs) ++ encode (exponent_tree is_const coeffs).
 
-Inductive outcome (A : Type) :=
-| Ok (a : A)
-| Err (code : N)
-| Panic.
-Arguments Ok {A} a.
-Arguments Err {A} code.
-Arguments Panic {A}.
 
 Fixpoint decode_points (l : list cbor) : option (list point) :=
   match l with
@@ -366,29 +394,30 @@ Fixpoint decode_points (l : list cbor) : option (list point) :=
 (* UnmarshalBinary AS WRITTEN: binary.BigEndian.Uint32(data) panics below 4 bytes; the count only sizes the
    slice of pre-made points that cbor decodes into: an array longer than the count fails (the extra elements
    are nil interfaces), a shorter one is accepted *)
+Definition exponent_decode_body (size : N) (cb : bytes) : outcome (bool * list point) :=
+  match decode cb with
+  | Some (CMap [ (CText k1, v1); (CText k2, v2) ], _) =>
+      if bytes_eqb k1 k_isconstant && bytes_eqb k2 k_coefficients then
+        match fld_bool false v1 with
+        | None => Err 1
+        | Some c =>
+            match v2 with
+            | CNull => Ok (c, [])
+            | CArr l =>
+                if lenN l <=? size then
+                  match decode_points l with Some ps => Ok (c, ps) | None => Err 1 end
+                else Err 1
+            | _ => Err 1
+            end
+        end
+      else Err 2
+  | Some _ => Err 2          (* outside the modelled shape *)
+  | None => Err 1
+  end.
+
 Definition exponent_decode (bs : bytes) : outcome (bool * list point) :=
   if (length bs <? 4)%nat then Panic
-  else
-    let size := be_val (firstn 4 bs) in
-    match decode (skipn 4 bs) with
-    | Some (CMap [ (CText k1, v1); (CText k2, v2) ], _) =>
-        if bytes_eqb k1 k_isconstant && bytes_eqb k2 k_coefficients then
-          match fld_bool false v1 with
-          | None => Err 1
-          | Some c =>
-              match v2 with
-              | CNull => Ok (c, [])
-              | CArr l =>
-                  if lenN l <=? size then
-                    match decode_points l with Some ps => Ok (c, ps) | None => Err 1 end
-                  else Err 1
-              | _ => Err 1
-              end
-          end
-        else Err 2
-    | Some _ => Err 2          (* outside the modelled shape *)
-    | None => Err 1
-    end.
+  else exponent_decode_body (be_val (firstn 4 bs)) (skipn 4 bs).
 
 (* ------------------------------------------------------------------------------------------------ *)
 (* 5. cmp config                                                                                     *)
@@ -397,7 +426,7 @@ Local Open Scope Z_scope.
 
 Definition bitlen (z : Z) : Z := if z <=? 0 then 0 else Z.log2 z + 1.
 
-(* configMarshal / publicMarshal after field decoding.  Absent-or-null pointers (*saferith.Nat,
+(* configMarshal / publicMarshal after field decoding.  Absent-or-null pointers ( *saferith.Nat,
    *saferith.Modulus) and slices (RID) are None; scalars and points that were null keep the value the
    receiver was created with (zero scalar, identity point). *)
 Record pub_m := mkPubM {
@@ -417,7 +446,7 @@ Record config_m := mkConfigM {
   cm_Q : option Z;
   cm_rid : option bytes;
   cm_chain : option bytes;
-  cm_public : list (option pub_m) }.   (* RawMessage entries, decoded one by one inside the loop; None = that entry fails to decode *)
+  cm_public : list (outcome pub_m) }.   (* RawMessage entries: each is decoded inside the loop, when the loop reaches it *)
 
 (* the restored Config *)
 Record pub_c := mkPubC {
@@ -466,7 +495,7 @@ Section Checks.
   (* arith.IsValidNatModN for one value: < N (CmpMod) and a unit modulo N (0 is not a unit) *)
   Definition valid_mod_N (n x : Z) : bool := (0 <=? x) && (x <? n) && (Z.gcd x n =? 1).
 
-  (* pedersen.ValidateParameters; codes: 0 ok *)
+  (* the validation function of pkg/pedersen (nil fields, range and unit test, S <> T) *)
   Definition validate_pedersen (n s t : option Z) : bool :=
     match n, s, t with
     | Some n, Some s, Some t => valid_mod_N n s && valid_mod_N n t && negb (s =? t)
@@ -483,12 +512,13 @@ Section Checks.
 
   (* the loop over cm.Public; NN = P*Q; error codes: 5 entry does not decode, 6 duplicate, 7 ValidateN,
      8 Pedersen, 9 identity point *)
-  Fixpoint process_publics (id : bytes) (ecdsa elgamal NN : Z) (l : list (option pub_m)) (acc : list pub_c)
+  Fixpoint process_publics (id : bytes) (ecdsa elgamal NN : Z) (l : list (outcome pub_m)) (acc : list pub_c)
     : outcome (list pub_c) :=
     match l with
     | [] => Ok acc
-    | None :: _ => Err 5
-    | Some p :: l' =>
+    | Panic :: _ => Panic
+    | Err c :: _ => Err (if (c =? 100)%N then 100%N else 5%N)
+    | Ok p :: l' =>
         if has_id (pm_id p) acc then Err 6
         else if bytes_eqb (pm_id p) id then
           (* "handle our own key separately": points and modulus recomputed from the secrets, S and T copied *)
@@ -530,25 +560,33 @@ End Checks.
 
 (* ---- field decoding of the emitted tree shape ---- *)
 
-Definition k_id := tstr "ID".
-Definition k_threshold := tstr "Threshold".
-Definition k_ecdsa := tstr "ECDSA".
-Definition k_elgamal := tstr "ElGamal".
-Definition k_P := tstr "P".
-Definition k_Q := tstr "Q".
-Definition k_rid := tstr "RID".
-Definition k_chainkey := tstr "ChainKey".
-Definition k_public := tstr "Public".
-Definition k_N := tstr "N".
-Definition k_S := tstr "S".
-Definition k_T := tstr "T".
+Definition k_id := tstr "ID"%string.
+Definition k_threshold := tstr "Threshold"%string.
+Definition k_ecdsa := tstr "ECDSA"%string.
+Definition k_elgamal := tstr "ElGamal"%string.
+Definition k_P := tstr "P"%string.
+Definition k_Q := tstr "Q"%string.
+Definition k_rid := tstr "RID"%string.
+Definition k_chainkey := tstr "ChainKey"%string.
+Definition k_public := tstr "Public"%string.
+Definition k_N := tstr "N"%string.
+Definition k_S := tstr "S"%string.
+Definition k_T := tstr "T"%string.
 
-(* field of type curve.Scalar pre-set to the zero scalar *)
-Definition fld_scalar (v : cbor) : option Z :=
-  match v with CBytes b => scalar_decode b | CNull => Some 0 | _ => None end.
-(* field of type curve.Point pre-set to the identity *)
-Definition fld_point (v : cbor) : option point :=
-  match v with CBytes b => point_decode b | CNull => Some None | _ => None end.
+(* field of INTERFACE type curve.Scalar / curve.Point pre-set to a fresh scalar / point: CBOR null makes
+   fxamacker panic ("reflect.Value.Set using unaddressable value") instead of leaving the field alone *)
+Definition fld_scalar (v : cbor) : outcome Z :=
+  match v with
+  | CBytes b => match scalar_decode b with Some s => Ok s | None => Err 1 end
+  | CNull => Panic
+  | _ => Err 1
+  end.
+Definition fld_point (v : cbor) : outcome point :=
+  match v with
+  | CBytes b => match point_decode b with Some P => Ok P | None => Err 1 end
+  | CNull => Panic
+  | _ => Err 1
+  end.
 (* *saferith.Nat: SetBytes of any length *)
 Definition fld_nat (v : cbor) : option (option Z) :=
   match v with CBytes b => Some (Some (Z.of_N (be_val b))) | CNull => Some None | _ => None end.
@@ -576,34 +614,21 @@ Definition pub_of_tree (t : cbor) : outcome pub_m :=
       if bytes_eqb k1 k_id && bytes_eqb k2 k_ecdsa && bytes_eqb k3 k_elgamal && bytes_eqb k4 k_N
          && bytes_eqb k5 k_S && bytes_eqb k6 k_T
       then
-        match fld_modulus v4 with
-        | Panic => Panic
-        | Err c => Err c
-        | Ok n =>
-            match fld_text [] v1, fld_point v2, fld_point v3, fld_nat v5, fld_nat v6 with
-            | Some id, Some X, Some Y, Some s, Some t => Ok (mkPubM id X Y n s t)
-            | _, _, _, _, _ => Err 1
-            end
-        end
+        (* a type error is remembered and decoding goes on; a panic ends everything *)
+        if is_panic (fld_point v2) || is_panic (fld_point v3) || is_panic (fld_modulus v4) then Panic
+        else
+          match fld_text [] v1, out_opt (fld_point v2), out_opt (fld_point v3), out_opt (fld_modulus v4),
+                fld_nat v5, fld_nat v6 with
+          | Some id, Some X, Some Y, Some n, Some s, Some t => Ok (mkPubM id X Y n s t)
+          | _, _, _, _, _, _ => Err 1
+          end
       else Err 100
   | _ => Err 100      (* outside the modelled shape *)
   end.
 
-Definition pub_entries (l : list cbor) : list (outcome pub_m) := map pub_of_tree l.
-
-(* entries are decoded lazily inside the validation loop; a panic inside an entry surfaces when the loop
-   reaches it, so for the model: the first entry that is not Ok decides *)
-Fixpoint first_panic (l : list (outcome pub_m)) : bool :=
-  match l with
-  | [] => false
-  | Panic :: _ => true
-  | Ok _ :: l' => first_panic l'
-  | Err _ :: _ => false
-  end.
-Definition entry_opt (o : outcome pub_m) : option pub_m := match o with Ok p => Some p | _ => None end.
-
-(* the outer configMarshal (9 keys).  Public: null = nil slice *)
-Definition config_of_tree (t : cbor) : option (config_m * list (outcome pub_m)) :=
+(* the outer configMarshal (9 keys).  Public: null = nil slice.  Err 1 = a field does not decode,
+   Err 100 = outside the modelled shape (no claim) *)
+Definition config_of_tree (t : cbor) : outcome config_m :=
   match t with
   | CMap [ (CText k1, v1); (CText k2, v2); (CText k3, v3); (CText k4, v4); (CText k5, v5);
            (CText k6, v6); (CText k7, v7); (CText k8, v8); (CText k9, v9) ] =>
@@ -611,27 +636,17 @@ Definition config_of_tree (t : cbor) : option (config_m * list (outcome pub_m)) 
          && bytes_eqb k5 k_P && bytes_eqb k6 k_Q && bytes_eqb k7 k_rid && bytes_eqb k8 k_chainkey
          && bytes_eqb k9 k_public
       then
-        do id <- fld_text [] v1;
-        do th <- fld_int 0 v2;
-        do x <- fld_scalar v3;
-        do y <- fld_scalar v4;
-        do P <- fld_nat v5;
-        do Q <- fld_nat v6;
-        do rid <- fld_bytes v7;
-        do ck <- fld_bytes v8;
-        do pubs <- match v9 with CArr l => Some (pub_entries l) | CNull => Some [] | _ => None end;
-        Some (mkConfigM id th x y P Q rid ck (map entry_opt pubs), pubs)
-      else None
-  | _ => None
-  end.
-
-(* does the loop reach a panicking entry before it stops with an error?  Entries are visited in order and the
-   loop stops at the first error; a conservative, exact-enough rule for single corruptions: the entries before
-   the panicking one are all Ok and pass validation iff process_publics on that prefix is Ok. *)
-Fixpoint prefix_before_panic (l : list (outcome pub_m)) : list (option pub_m) :=
-  match l with
-  | Ok p :: l' => Some p :: prefix_before_panic l'
-  | _ => []
+        if is_panic (fld_scalar v3) || is_panic (fld_scalar v4) then Panic else
+        match fld_text [] v1, fld_int 0 v2, out_opt (fld_scalar v3), out_opt (fld_scalar v4), fld_nat v5, fld_nat v6,
+              fld_bytes v7, fld_bytes v8,
+              match v9 with CArr l => Some (map pub_of_tree l) | CNull => Some [] | _ => None end with
+        | Some id, Some th, Some x, Some y, Some P, Some Q, Some rid, Some ck, Some pubs =>
+            Ok (mkConfigM id th x y P Q rid ck pubs)
+        | _, _, _, _, _, _, _, _, _ => Err 1
+        end
+      else Err 100
+  | CMap _ => Err 100
+  | _ => Err 1
   end.
 
 Section Unmarshal.
@@ -646,32 +661,14 @@ Section Unmarshal.
     | Some (CNull, _) => Panic      (* cbor.Unmarshal(data, &cm) sets cm = nil; cm.ECDSA dereferences it *)
     | Some (t, _) =>
         match config_of_tree t with
-        | None => match t with CMap _ => Err 1 | _ => Err 1 end
-        | Some (cm, pubs) =>
-            if first_panic pubs then
-              (* the panicking entry is reached iff everything before it passes *)
-              if (cm_ecdsa cm =? 0) || (cm_elgamal cm =? 0) then Err 2
-              else if negb (validate_prime prime_test (cm_P cm)) then Err 3
-              else if negb (validate_prime prime_test (cm_Q cm)) then Err 4
-              else
-                match cm_P cm, cm_Q cm with
-                | Some P, Some Q =>
-                    match process_publics act_on_base (cm_id cm) (cm_ecdsa cm) (cm_elgamal cm) (P * Q)
-                                          (prefix_before_panic pubs) [] with
-                    | Ok _ => Panic
-                    | Err c => Err c
-                    | Panic => Panic
-                    end
-                | _, _ => Err 3
-                end
-            else config_checks prime_test act_on_base cm
+        | Ok cm => config_checks prime_test act_on_base cm
+        | Err c => Err c
+        | Panic => Panic
         end
     end.
 End Unmarshal.
 
 (* ---- the validity rules named by the property (Prop level; primality is the real thing) ---- *)
-
-From Coq Require Import Znumtheory.
 
 Definition valid_pedersen (n : Z) (s t : option Z) : Prop :=
   exists s' t', s = Some s' /\ t = Some t' /\
@@ -751,48 +748,50 @@ Record frost_config := mkFrost {
   f_chain : option bytes;
   f_shares : list (bytes * point) }.
 
-Definition k_privateshare := tstr "PrivateShare".
-Definition k_publickey := tstr "PublicKey".
-Definition k_vshares := tstr "VerificationShares".
+Definition k_privateshare := tstr "PrivateShare"%string.
+Definition k_publickey := tstr "PublicKey"%string.
+Definition k_vshares := tstr "VerificationShares"%string.
 
 Fixpoint shares_of_pairs (l : list (cbor * cbor)) : option (list (bytes * point)) :=
   match l with
   | [] => Some []
   | (CText id, CBytes b) :: l' =>
-      do P <- point_decode b; do r <- shares_of_pairs l'; Some ((id, P) :: r)
+      if utf8_valid id then do P <- point_decode b; do r <- shares_of_pairs l'; Some ((id, P) :: r) else None
+  | (CText id, CNull) :: l' =>        (* cbor.Unmarshal(null, point): the fresh point (identity) is left as it is *)
+      if utf8_valid id then do r <- shares_of_pairs l'; Some ((id, None) :: r) else None
   | _ => None
   end.
 
-Definition frost_of_tree (t : cbor) : option frost_config :=
+Definition frost_of_tree (t : cbor) : outcome frost_config :=
   match t with
   | CMap [ (CText k1, v1); (CText k2, v2); (CText k3, v3); (CText k4, v4); (CText k5, v5); (CText k6, v6) ] =>
       if bytes_eqb k1 k_id && bytes_eqb k2 k_threshold && bytes_eqb k3 k_privateshare
          && bytes_eqb k4 k_publickey && bytes_eqb k5 k_chainkey && bytes_eqb k6 k_vshares
       then
-        do id <- fld_text [] v1;
-        do th <- fld_int 0 v2;
-        do x <- fld_scalar v3;
-        do Y <- fld_point v4;
-        do ck <- fld_bytes v5;
-        do sh <- match v6 with
-                 | CBytes b =>
-                     match decode b with
-                     | Some (CMap l, _) => shares_of_pairs l
-                     | _ => None
-                     end
-                 | CNull => Some []
-                 | _ => None
-                 end;
-        Some (mkFrost id th x Y ck sh)
-      else None
-  | _ => None
+        if is_panic (fld_scalar v3) || is_panic (fld_point v4) then Panic else
+        match fld_text [] v1, fld_int 0 v2, out_opt (fld_scalar v3), out_opt (fld_point v4), fld_bytes v5,
+              match v6 with
+              | CBytes b =>
+                  match decode b with
+                  | Some (CMap l, _) => shares_of_pairs l
+                  | Some (CNull, _) => Some []   (* PointMap.UnmarshalBinary: a nil map, then an empty Points *)
+                  | _ => None
+                  end
+              | CNull => Some []           (* the *PointMap becomes nil *)
+              | _ => None
+              end with
+        | Some id, Some th, Some x, Some Y, Some ck, Some sh => Ok (mkFrost id th x Y ck sh)
+        | _, _, _, _, _, _ => Err 1
+        end
+      else Err 100
+  | _ => Err 100
   end.
 
 (* what frost.EmptyConfig + cbor.Unmarshal accept: everything that decodes *)
-Definition frost_unmarshal (bs : bytes) : option frost_config :=
+Definition frost_unmarshal (bs : bytes) : outcome frost_config :=
   match decode bs with
   | Some (t, _) => frost_of_tree t
-  | None => None
+  | None => Err 1
   end.
 
 Definition valid_frost (c : frost_config) : Prop :=
